@@ -237,9 +237,7 @@ TOKEN_RE = re.compile(r'[A-Za-z_]\w*|\d+|"[^"\n]*"|`[^`\n]*`|[{}()\[\],;.*=:<>&|
 
 
 def token_deletion(rng, case, layout):
-    """delete one token of one Go file of the package (or of the destination package).
-    Lines of function declarations are left alone in `map` packages: a deletion there can
-    produce exactly the open findings K_map_unnamed_names / K_map_nil_body."""
+    """delete one token of one Go file of the package (or of the destination package)"""
     gofiles = sorted(k for k, v in layout.items() if isinstance(v, str) and k.endswith(".go") and "shoot" not in k)
     if not gofiles:
         return None
@@ -251,10 +249,6 @@ def token_deletion(rng, case, layout):
         line = text[ls:text.find("\n", ls) if text.find("\n", ls) >= 0 else len(text)]
         if line.lstrip().startswith("//") and not line.lstrip().startswith("//shoot") and "go:generate" not in line:
             continue
-        if case.sub == "map" and line.startswith("func "):
-            continue
-        if line.startswith("package "):
-            continue          # a file without package clause + -file is the open finding K_testfile_no_package_clause
         toks.append(m)
     if not toks:
         return None
@@ -488,7 +482,6 @@ SITES = {
     "internal/shoot/generatorbase.go:151": "DFileNotExists", "internal/shoot/generatorbase.go:219": "DLoadError",
     "internal/shoot/generatorbase.go:224": "DNoPackage", "internal/shoot/generatorbase.go:272": "DMultiPkg",
     "internal/shoot/generatorbase.go:286": "DMultiPkg", "internal/shoot/generatorbase.go:324": "DNotInFile",
-    "internal/shoot/generatorbase.go:255": "panic site PTestFileNoPos (open finding K_testfile_no_package_clause), not an exit call",
     "internal/shoot/generatorbase.go:338": "unreachable: LoadPackage sets the package or is fatal",
     "internal/shoot/generatorbase.go:378": "DMergeSources: oracle i_merge_ok; only the opaque stream can reach it",
     "internal/shoot/generatorbase.go:397": "DExecTemplate: oracle i_render; only the uncertain/opaque streams can reach it",
@@ -536,7 +529,7 @@ def site_census():
     return n
 
 
-CENSUS_EXPECTED = len(SITES) - 2 + 2      # the table above without the flag row, plus logx.go's own two log.Fatal calls
+CENSUS_EXPECTED = len(SITES) - 1 + 2      # the table above without the flag row, plus logx.go's own two log.Fatal calls
 
 
 def describe(case, o, layout):
@@ -680,10 +673,10 @@ def body(run, proof_ok):
         "C18_nonzero_exit_changes_nothing assumes no failing system call and only regular files among the foreign entries of the "
         "package directory; the two ways to violate it on a directory state (open findings K_clean_unreadable_after_write, "
         "K_rename_fail_after_write) are proved as refutations and replayed on every run",
-        "C18_always_a_deliberate_exit assumes a well-founded embedding relation and function declarations with named "
-        "parameters/receivers, bodies and accessor arities (open findings K_ctor_self_embed, K_map_self_embed, "
-        "K_map_unnamed_names, K_map_accessor_arity, K_map_nil_body) and a package clause in every Go file "
-        "(K_testfile_no_package_clause); the comparison stream stays inside these guards",
+        "C18_always_a_deliberate_exit assumes a well-founded embedding relation (open findings K_ctor_self_embed, "
+        "K_map_self_embed); the comparison stream stays inside this guard.  The former panic classes (unnamed "
+        "parameters/receivers, bodiless declarations, accessor arities in the mapper; a Go file without package clause "
+        "with -file) were repaired in /repo and are inside the stream",
         "partial: packages.Load on syntactically broken input and the text produced by the templates are not modelled",
     ])
 
